@@ -33,10 +33,20 @@ REJECT_SHAPES = [
     ("under-condition", "out1: w2.flag ? w2.silentVal : 0"),
     ("in-gadget-member", "font.pointSize: w2.silentVal"),
 ]
+REAL_REJECT_SHAPES = [   # QAbstractButton.text, QLabel.text, QSpinBox.minimum have no notify signal in Qt 5
+    ("real-button-text", "QLabel { id: r1; text: r2.text }\n        QPushButton { id: r2 }"),
+    ("real-label-text-through-ternary", "QLineEdit { id: r1; placeholderText: r1.readOnly ? r2.text : \"k\" }\n        QLabel { id: r2 }"),
+    ("real-spinbox-minimum", "QLabel { id: r1; indent: r2.minimum + 1 }\n        QSpinBox { id: r2 }"),
+    ("real-checkable-in-condition", "QLabel { id: r1; wordWrap: r2.checkable && r2.checked }\n        QCheckBox { id: r2 }"),
+]
 ACCEPT_TWINS = [("const-direct", "out1: w2.constVal + 1"), ("const-chain", "out1: w2.peer.constVal"), ("const-local", "out1: { let a = w2; return a.constVal }")]
 
 
 def gen_case(rng, params, index):
+    if rng.chance(0.03):
+        kind, body = rng.choice(REAL_REJECT_SHAPES)
+        qml = "import qmluic.QtWidgets\nQWidget {\n    id: root\n    QVBoxLayout {\n        %s\n    }\n}\n" % body
+        return {"kind": "rejection", "shape": kind, "expect_reject": True, "qml": qml, "type_name": "Doc"}
     if rng.chance(0.1):
         kind, line = rng.choice(REJECT_SHAPES + ACCEPT_TWINS)
         qml = ("import qmluic.QtWidgets\nQWidget {\n    id: root\n    QVBoxLayout {\n        SimWidget {\n            id: w1\n            %s\n        }\n"
